@@ -196,6 +196,27 @@ def check(ctx):
                    msg=f"`while {src(t)}` counts `{v}` {'down' if moved[v] < 0 else 'up'} but exits only on a type-strict / exact equality: a count that is a numpy integer (any computed count), a float or negative never satisfies it and the adverb loops forever")
     ctx.floor("C02-R6", "counting loops in the adverb implementations", n6, 2)
 
+    # ---- R7 `op` names the chain's base verb, which is this adverb's verb only at the first position of a chain
+    ctx.rule("C02-R7", "an adverb of monadic verbs (it applies its verb to one argument, so it may stand anywhere in a chain) never consults `op`: the chain builder hands every stage the chain's BASE verb, which is this stage's verb only at the first position")
+    n7 = n_dy = 0
+    for f in repo.all_funcs(("adverbs",)):
+        ps = f.params()
+        if f.parent is not None or len(ps) < 3 or ps[0] != "f" or "op" not in ps:
+            continue
+        ar = {len(c.args) for c in calls_in(f.node) if isinstance(c.func, ast.Name) and c.func.id == "f"}
+        passes_f = any(isinstance(x, ast.Name) and x.id == "f" and isinstance(x.ctx, ast.Load) and not (isinstance(getattr(x, "_parent", None), ast.Call) and x._parent.func is x) for x in walk_local(f.node))
+        reads = [x for x in walk_local(f.node) if isinstance(x, ast.Name) and x.id == "op" and isinstance(x.ctx, ast.Load)]
+        if ar == {1} or (not ar and passes_f and not reads):
+            n7 += 1
+            ctx.instance("C02-R7", f.fq, "adverb of monadic verbs")
+            ctx.ob("C02-R7", f.fq, "`op` is not read", not reads, node=reads[0] if reads else f.node, construct=f"{f.name} consults op",
+                   msg=f"{f.name} applies its verb to one argument (it can follow another adverb in a chain) but takes a decision on `op`: in -/'m the Each stage sees op='-' (the base verb of the chain) although its own verb is -/ , so a shortcut keyed on `op` computes something else")
+        elif reads:
+            n_dy += 1
+            ctx.instance("C02-R7", f.fq, "adverb of dyadic verbs using op")
+    ctx.floor("C02-R7", "adverbs of monadic verbs", n7, 3)
+    ctx.control("C02-R7", f"adverbs that consult op are recognised ({n_dy})", n_dy >= 2)
+
     # ---- R5 (node memos in eval; the compile memo is C04/C05's known finding and not repeated here)
     sub = _NodeMemoOnly(ctx)
     c04.check_memo(sub, repo, cg, "C02-R5")
@@ -261,6 +282,7 @@ MUTATION_SCOPE = ['adverbs:eval_adverb_over',
                   'types:get_adverb_arity']
 
 SEEDS = [
+    Seed("each-shortcut-keyed-on-op", "fault", "adverbs", "def eval_adverb_each(f, a, op, backend):\n", "def eval_adverb_each(f, a, op, backend):\n    if isinstance(op, KGOp) and op.a == '-' and backend.np.isarray(a) and a.dtype != 'O':\n        return -a\n", rule="C02-R7"),
     Seed("remainder-shortcut", "fault", "adverbs", "        elif safe_eq(op.a, '&') and a.ndim == 1:\n            return np_backend.min(a)",
          "        elif safe_eq(op.a, '!'):\n            return np_backend.fmod.reduce(a)\n        elif safe_eq(op.a, '&') and a.ndim == 1:\n            return np_backend.min(a)", rule="C02-R1"),
     Seed("min-as-max", "fault", "adverbs", "        elif safe_eq(op.a, '&') and a.ndim == 1:\n            return np_backend.min(a)", "        elif safe_eq(op.a, '&') and a.ndim == 1:\n            return np_backend.max(a)", rule="C02-R1"),
